@@ -54,8 +54,7 @@ Proof.
   unfold G.add_node, add_node, handler_ok, h_state_of, h_ty_of, rt_eq, rt_is_nil, st_eq, opt_some, x_has_node.
   destruct (g_err (x_st xs)); [reflexivity|].
   destruct (g_compiled (x_st xs)); [reflexivity|].
-  rewrite (Bool.orb_comm (N.eqb k kEND) (N.eqb k kSTART)).
-  destruct (N.eqb k kSTART || N.eqb k kEND); [reflexivity|].
+  destruct (N.eqb k kSTART); destruct (N.eqb k kEND); cbn [orb]; try reflexivity.
   destruct (has_node (x_st xs) k) eqn:Hn; [reflexivity|].
   destruct pre as [[ps pt pr]|], post as [[qs qt qr]|], (g_st (x_st xs)) as [s|], i as [ti|], o as [to|]; simpl;
     repeat match goal with
